@@ -88,15 +88,16 @@ func drawShortInput(ch chooser.Chooser, maxLen int) string {
 
 // Session modes.
 const (
-	smNext  = iota // Next until false
-	smEach         // Each with an early stop after K tokens, then Next until false
-	smSplit        // K Nexts, then Scanner.Split
-	smRest         // K Nexts, then Rest and drain
-	smPool         // shell.Split(string) through the scanner pool
+	smNext    = iota // Next until false
+	smEach           // Each with an early stop after K tokens, then Next until false
+	smSplit          // K Nexts, then Scanner.Split
+	smRest           // K Nexts, then Rest and drain
+	smPool           // shell.Split(string) through the scanner pool
+	smAbandon        // K Nexts, then the caller walks away (the scanner and possibly the reader are re-used)
 	numSessionModes
 )
 
-var sessionModeNames = [...]string{"next", "each-early-stop", "scanner-split", "rest", "split-via-pool"}
+var sessionModeNames = [...]string{"next", "each-early-stop", "scanner-split", "rest", "split-via-pool", "abandon-after-k"}
 
 type c16Session struct {
 	Input  string       `json:"input"`
@@ -106,7 +107,11 @@ type c16Session struct {
 	Faults readerFaults `json:"-"`
 	FaultS string       `json:"delivery"`
 	Fresh  bool         `json:"fresh_scanner"` // NewScanner instead of Reset
-	reader *simReader
+	// SameReader: hand Reset the very reader object the previous session of this
+	// thread used, re-loaded with this session's input (as callers do with a
+	// strings.Reader or bytes.Reader they Reset).
+	SameReader bool `json:"same_reader_object"`
+	reader     *simReader
 	// observations (written by the executing thread, read after the join)
 	Tokens    []string `json:"tokens"`
 	Completes []bool   `json:"complete_after_each"`
@@ -118,6 +123,10 @@ type c16Session struct {
 	Extra     []bool `json:"next_after_end"`
 	Panic     string `json:"panic,omitempty"`
 	restTaken bool
+	usedPlan  []readSeg
+	planLen   int
+	dataLen   int
+	reused    bool
 }
 
 type c16Config struct {
@@ -134,17 +143,25 @@ func resetShellPools() {
 	}
 }
 
-// execSession runs one session on scanner sc (nil: make one).
-func execSession(sc *shell.Scanner, s *c16Session) *shell.Scanner {
+// execSession runs one session on scanner sc (nil: make one). prev is the
+// reader object of the thread's previous scanner session (nil if none); the
+// reader object this session used is returned.
+func execSession(sc *shell.Scanner, prev *simReader, s *c16Session) (*shell.Scanner, *simReader) {
 	if s.Mode == smPool {
 		toks, ok := shell.Split(s.Input)
 		s.Tokens, s.PoolOK = toks, ok
-		return sc
+		return sc, prev
+	}
+	rd := s.reader
+	if s.SameReader && prev != nil {
+		prev.reload(s.reader)
+		rd = prev
+		s.reader = prev
 	}
 	if sc == nil || s.Fresh {
-		sc = shell.NewScanner(s.reader)
+		sc = shell.NewScanner(rd)
 	} else {
-		sc.Reset(s.reader)
+		sc.Reset(rd)
 	}
 	next := func() bool {
 		if !sc.Next() {
@@ -183,6 +200,17 @@ func execSession(sc *shell.Scanner, s *c16Session) *shell.Scanner {
 		if len(rest) > 0 {
 			s.Completes[len(s.Completes)-1] = sc.Complete()
 		}
+	case smAbandon:
+		ok := true
+		for i := 0; i < s.K && ok; i++ {
+			ok = next()
+		}
+		s.errVal = sc.Err()
+		if s.errVal != nil {
+			s.Err = s.errVal.Error()
+		}
+		s.usedPlan, s.planLen, s.dataLen, s.reused = rd.used(), len(rd.plan), len(rd.data), rd.reloaded
+		return sc, rd // walk away: no draining, no further calls
 	case smRest:
 		ok := true
 		for i := 0; i < s.K && ok; i++ {
@@ -206,7 +234,8 @@ func execSession(sc *shell.Scanner, s *c16Session) *shell.Scanner {
 	for i := 0; i < 2; i++ {
 		s.Extra = append(s.Extra, sc.Next())
 	}
-	return sc
+	s.usedPlan, s.planLen, s.dataLen, s.reused = rd.used(), len(rd.plan), len(rd.data), rd.reloaded
+	return sc, rd
 }
 
 // checkSession compares a session's observations with the reference.
@@ -267,6 +296,26 @@ func checkSession(s *c16Session, st *Stats) *Violation {
 		return nil
 	}
 
+	if s.Mode == smAbandon {
+		k := len(s.Tokens)
+		if k > len(want) || !equalStrings(s.Tokens, want[:k]) {
+			return &Violation{"token-mismatch", fmt.Sprintf("%s: tokens %q are not a prefix of the reference tokens %q", desc, s.Tokens, want)}
+		}
+		if !failing && k != minInt(s.K, len(want)) {
+			return &Violation{"token-mismatch", fmt.Sprintf("%s: %d Next calls produced %d tokens %q, reference has %q", desc, s.K, k, s.Tokens, want)}
+		}
+		if !failing {
+			for i, c := range s.Completes {
+				if c != ref.Tokens[i].Complete {
+					return &Violation{"complete-mismatch", fmt.Sprintf("%s: Complete() after token %d (%q) = %v, reference %v", desc, i, s.Tokens[i], c, ref.Tokens[i].Complete)}
+				}
+			}
+			if k < len(want) {
+				st.Inc("probe:scanner_abandoned_mid_input", 1)
+			}
+		}
+		return nil
+	}
 	if failing {
 		if len(s.Tokens) > len(want) || !equalStrings(s.Tokens, want[:len(s.Tokens)]) {
 			return &Violation{"token-mismatch", fmt.Sprintf("%s: tokens %q are not a prefix of the reference tokens %q", desc, s.Tokens, want)}
@@ -308,6 +357,13 @@ func checkSession(s *c16Session, st *Stats) *Violation {
 		c16Shell.add(st, ShellCase{Source: s.Input, Want: want, What: fmt.Sprintf("the words %q", s.Input)})
 	}
 	return nil
+}
+
+func minInt(a, b int) int {
+	if a < b {
+		return a
+	}
+	return b
 }
 
 func bucket(k, n int) string {
@@ -379,11 +435,12 @@ func anySuffixHasPrefix(in string, ref refResult, k int, got string) bool {
 func drawSession(ch chooser.Chooser, withErrors bool, st *Stats) *c16Session {
 	s := &c16Session{}
 	s.Input = drawInput(ch, 14)
-	s.Mode = weighted(ch, []int{4, 2, 2, 3, 3}, "mode")
+	s.Mode = weighted(ch, []int{4, 2, 2, 3, 3, 3}, "mode")
 	s.ModeS = sessionModeNames[s.Mode]
 	ntok := len(refTokenize(s.Input).Tokens)
 	s.K = ch.Draw(ntok+2, "k")
 	s.Fresh = ch.Draw(3, "fresh") == 0
+	s.SameReader = ch.Draw(2, "samereader") == 1
 	if s.Mode != smPool {
 		s.Faults = drawReaderFaults(ch, len(s.Input), withErrors)
 		if len(s.Input) > 256 && s.Faults.Frag == 1 {
@@ -429,11 +486,12 @@ func runC16(withErrors bool) func(ch chooser.Chooser, st *Stats) *Outcome {
 		for t := range bodies {
 			bodies[t] = func(tid int) {
 				var sc *shell.Scanner
+				var rd *simReader
 				for _, s := range sessions[tid] {
 					s := s
-					if p := threadSafely(func() { sc = execSession(sc, s) }); p != "" {
+					if p := threadSafely(func() { sc, rd = execSession(sc, rd, s) }); p != "" {
 						s.Panic = p
-						sc = nil
+						sc, rd = nil, nil
 					}
 				}
 			}
@@ -452,8 +510,11 @@ func runC16(withErrors bool) func(ch chooser.Chooser, st *Stats) *Outcome {
 				h.str(s.Rest)
 				h.str(s.Err)
 				if s.reader != nil {
-					s.reader.countFired(st)
-					if len(s.reader.plan) > 1 {
+					if s.reused {
+						st.Inc("probe:reader_object_reused", 1)
+					}
+					countFiredSegs(st, s.usedPlan, s.planLen, s.dataLen)
+					if s.planLen > 1 {
 						nontrivial = true
 					}
 				}
@@ -561,7 +622,7 @@ func init() {
 			"a run is non-trivial if some reader needed more than one Read or a pooled object was re-used; distinct = distinct fingerprints of (event log, tokens, rests)",
 		Real:           real,
 		Simulated:      []string{"the io.Reader handed to scanners", "sync.Pool object choice and retention", "goroutine scheduling at every Read and pool operation"},
-		RequiredProbes: append(c16Pairs(), "fault:short_read", "fault:empty_read", "fault:data_with_eof", "probe:pool_returned_used_object", "probe:rest_after_0_tokens", "probe:rest_after_some_tokens", "probe:rest_after_all_tokens", "probe:incomplete_final_token", "probe:context_switch_between_scanner_reads", "shell_oracle:evaluations"),
+		RequiredProbes: append(c16Pairs(), "fault:short_read", "fault:empty_read", "fault:data_with_eof", "probe:pool_returned_used_object", "probe:rest_after_0_tokens", "probe:rest_after_some_tokens", "probe:rest_after_all_tokens", "probe:incomplete_final_token", "probe:context_switch_between_scanner_reads", "shell_oracle:evaluations", "probe:scanner_abandoned_mid_input", "probe:reader_object_reused"),
 		Finish:         finishShell(&c16Shell),
 	})
 	register(&Property{
